@@ -113,14 +113,15 @@ def self_obj(b):
     return me
 
 
-def sigv4_spec(me, method, enc_path, canon_query, payload_hash, now):
-    """AWS Signature Version 4 for S3, written from the published algorithm"""
+def sigv4_spec(me, method, enc_path, canon_query, payload_hash, now, extra=()):
+    """AWS Signature Version 4 for S3, written from the published algorithm.  `extra`: further (lower-case name, value ON THE WIRE)
+    pairs that are signed besides the three mandatory headers"""
     amzdate = z3.Concat(fmt(now, '%Y%m%dT%H%M%S'), S('Z'))
     date = fmt(now, '%Y%m%d')
     host, region, key_id, secret = (me.get(x).z for x in ('host', 'region', 'key_id', 'access_key'))
-    canonical_headers = z3.Concat(S('host:'), host, S('\n'), S('x-amz-content-sha256:'), payload_hash, S('\n'),
-                                  S('x-amz-date:'), amzdate, S('\n'))
-    signed = S('host;x-amz-content-sha256;x-amz-date')
+    hs = sorted([('host', host), ('x-amz-content-sha256', payload_hash), ('x-amz-date', amzdate)] + list(extra), key=lambda kv: kv[0])
+    canonical_headers = z3.Concat(*[t for k, v in hs for t in (S(k + ':'), v, S('\n'))])
+    signed = S(';'.join(k for k, _ in hs))
     creq = z3.Concat(method, S('\n'), enc_path, S('\n'), canon_query, S('\n'), canonical_headers, S('\n'), signed, S('\n'), payload_hash)
     scope = z3.Concat(date, S('/'), region, S('/'), S('s3'), S('/'), S('aws4_request'))
     sts = z3.Concat(S('AWS4-HMAC-SHA256'), S('\n'), amzdate, S('\n'), scope, S('\n'), SHA256HEX(enc(creq)))
@@ -143,7 +144,14 @@ def prepare_setup(shape):
         b.sym('method', STR)
         b.sym('canonical_uri', STR)
         b.sym('payload_digest', STR)
-        b.bind('headers', None if shape != 'headers' else b.st.new_py('dict', {'content-length': sym.const(STR, 'cl')}))
+        if shape == 'headers':
+            b.bind('headers', b.st.new_py('dict', {'content-length': sym.const(STR, 'cl')}))
+        elif shape == 'headers_reused':
+            # the function fills in the caller's dict: the dict it is given may be one an EARLIER call (an earlier attempt) has filled in
+            b.bind('headers', b.st.new_py('dict', {'content-length': sym.const(STR, 'cl'), 'x-amz-content-sha256': sym.const(STR, 'old_digest'),
+                                                   'x-amz-date': sym.const(STR, 'old_date'), 'authorization': sym.const(STR, 'old_authorization')}))
+        else:
+            b.bind('headers', None)
         if shape == 'noquery':
             b.bind('query', None)
         else:
@@ -195,8 +203,16 @@ def prepare_post(prop, shape):
             auth, amzdate = sigv4_spec(me, method, enc_path, cq, ph, now)
             # C16.sig.structure: the signature is computed over exactly what goes on the wire
             res.oblige(p, f'{prop}.sig[{shape}].wire_url_is_signed_path_and_query', url == wire)
+            # SigV4 requires host (and, for S3, the x-amz-* headers) to be signed and allows any further header that is sent to be signed
+            # too - with the value that is sent.  `authorization` cannot be among them (it carries the signature)
+            import itertools
+            others = sorted(k for k in hd if isinstance(k, str) and k.lower() not in ('host', 'x-amz-content-sha256', 'x-amz-date', 'authorization'))
+            accepted = []
+            for r in range(len(others) + 1):
+                for sub in itertools.combinations(others, r):
+                    accepted.append(sigv4_spec(me, method, enc_path, cq, ph, now, extra=[(k.lower(), sym.lift(hd[k], STR).z) for k in sub])[0])
             res.oblige(p, f'{prop}.sig[{shape}].authorization_is_sigv4_of_wire_values',
-                       sym.lift(hd.get('authorization', ''), STR).z == auth)
+                       z3.Or(*[sym.lift(hd.get('authorization', ''), STR).z == a for a in accepted]))
             res.oblige(p, f'{prop}.sig[{shape}].signed_headers_are_sent', z3.And(
                 sym.lift(hd.get('x-amz-date', ''), STR).z == amzdate,
                 sym.lift(hd.get('x-amz-content-sha256', ''), STR).z == ph))
@@ -213,7 +229,7 @@ def prepare_post(prop, shape):
                 qv = kw.get('quote_via')
                 res.oblige(p, f'{prop}.sig[{shape}].query_components_percent_encoded_not_plus', z3.BoolVal(
                     isinstance(qv, Model) and qv.name == 'quote'))
-            if shape == 'headers':
+            if shape in ('headers', 'headers_reused'):
                 res.oblige(p, f'{prop}.sig[{shape}].caller_headers_kept',
                            sym.lift(hd.get('content-length', ''), STR).z == z3.String('cl'))
     return post
@@ -221,7 +237,7 @@ def prepare_post(prop, shape):
 
 def prepare_units(prop):
     return [Unit(f'{prop}.prepare_request[{sh}]', S3C_PY, 'S3Compatible._prepare_request', prepare_setup(sh),
-                 prepare_post(prop, sh), prop=prop) for sh in ('noquery', 'query1', 'query2', 'query3', 'headers')]
+                 prepare_post(prop, sh), prop=prop) for sh in ('noquery', 'query1', 'query2', 'query3', 'headers', 'headers_reused')]
 
 
 # ------------------------------------------------------------------ per-method contracts
